@@ -98,6 +98,18 @@ def _machine(cfg: HistoryProperty, res: ShardResult, max_rules: int):
             def reinject(self, gsel):
                 self._do(["reinject", gsel])
 
+        if cfg.instr_bias.get("reoffer"):
+
+            @rule(rsel=st.integers(0, 3), fsel=st.integers(0, 2))
+            def reoffer(self, rsel, fsel):
+                self._do(["reoffer", rsel, fsel])
+
+        if cfg.instr_bias.get("restate"):
+
+            @rule(sel=st.integers(0, 40))
+            def restate(self, sel):
+                self._do(["restate", sel])
+
         if cfg.instr_bias.get("relocate"):
 
             @rule(which=st.integers(0, 1), esel=st.integers(0, 5), site=st.integers(0, 9))
@@ -123,7 +135,7 @@ def _machine(cfg: HistoryProperty, res: ShardResult, max_rules: int):
                 self._do(["retain"])
 
             @precondition(lambda self: self.h is not None and self.h.retained)
-            @rule(k=st.integers(0, 7))
+            @rule(k=st.integers(0, 47))
             def branch(self, k):
                 self._do(["branch", k])
 
